@@ -117,7 +117,8 @@ def run(ctx):
         for S, E, k in vecs:
             # (paths that CONTAIN the call's own name: only the call name gets the suffix)
             bn = base[4:].replace('sys_', '').encode()
-            paths = [b'/tw%d' % i if k % 2 else b'/etc/%sldap/%s.d/%s' % (bn, bn, bn) for i in range(k % 3)]
+            paths = [b'/tw%d' % i if k % 2 else [b'/etc/%sldap/%s.d/%s' % (bn, bn, bn), b'/Downloads/%s(1).pdf, %s_nocancel(2)' % (bn, bn)][(k // 2) % 2]
+                     for i in range(k % 3)]
 
             def rend(n):
                 try:
